@@ -55,6 +55,29 @@ def session(sc, attempts=2, limit=240):
     return {"events": [], "exc": "", "hang": True}
 
 
+def pipeline_table(d):
+    """Growth beyond the listed property: one iteration of the driver for one program (HPipeline).  TLC checks the design properties
+    over all 1 176 scenarios (schedule length <= 3, which steps transform, where an exception is raised, injection outcome, --keep-all,
+    --only-correctness-preserving-transformations); the real gen_program / ProgramProcessor run each scenario with scripted
+    transformations; HPipelineTrace compares files and result with the model's final state.  Informational: not part of the C15 verdict."""
+    g = tlc_must("HPipeline", cfg(spec="Spec", invariants=["PassIsFinal", "PassNeverFaulty", "FailIsFaulty", "TextIsBin", "KeepAll", "FailedReportsNothing"],
+                                  props=["Terminates"], constraints=["Emit"]), workers=4, name="mc_pl")
+    scs = list({json.dumps(j["sc"], sort_keys=True): j["sc"] for j in g.json}.values())
+    parts = chunks(scs, (len(scs) + 7) // 8)
+    files = [f for fl in parallel(lambda i: json.loads(run_driver("pl_exec.py", [write_json(os.path.join(d, "pls%d.json" % i), parts[i]),
+                                                                                os.path.join(d, "plr%d.json" % i)])), range(len(parts))) for f in fl]
+    vals = parallel(lambda f: tlc_must("HPipelineTrace", cfg(init="TInit", next_="TNext", constraints=["AtEnd"]), env={"TRACE_FILE": f}, workers=1, name="val_pl"), files)
+    mism = []
+    for f, v in zip(files, vals):
+        runs = read_json(f)["runs"]
+        for j in v.json:
+            mism.append((runs[j["run"] - 1]["sc"], j["diff"]))
+    for sc, diff in mism[:5]:
+        print("INFO: HPipeline: real iteration differs from the model in %s for scenario %s" % (diff, json.dumps(sc, sort_keys=True)))
+    return {"scenarios": len(scs), "model_states": g.distinct, "mismatches": len(mism),
+            "design_properties_checked": ["PassIsFinal", "PassNeverFaulty", "FailIsFaulty", "TextIsBin", "KeepAll", "FailedReportsNothing", "Terminates"]}
+
+
 def validate(args):
     path, (n, b, pool) = args
     return tlc_must("HDriverTrace", cfg(init="TInit", next_="TNext", constraints=["AtEnd"], constants=consts(n, b, pool)),
@@ -134,8 +157,11 @@ def run(tier, seed, selftest=False, replay=None):
                             "clause %s in session %s (n=%d batch=%d pool=%s): outs=%s crashes=%s%s" % (
                                 cl, s["id"], key[0], key[1], key[2], [(o["kind"], o["rp"], o["rf"]) for o in s["scenario"]["outs"]],
                                 s["scenario"]["crashes"], " exc=" + s["exc"] if s["exc"] else ""))
+    pl = pipeline_table(d) if not replay else None
+    T("pipeline table")
     rc = verdict.finish()
     write_evidence(PID, tier, seed, "model_checking", {
+        "pipeline_model": pl,
         "states": sum(m.distinct for m in mcs) + sum(g.distinct for g in gens) + sum(v.distinct for v in vals),
         "transitions": sum(m.generated for m in mcs) + sum(g.generated for g in gens) + sum(v.generated for v in vals),
         "traces_validated_against_impl": len(scs),
